@@ -1,6 +1,7 @@
 import XalanModel.C12.NodeListProofs
 import XalanModel.C12.StructuralProofs
 import XalanModel.C12.MultiDocProofs
+import XalanModel.C12.AxesProofs
 /-!
 # C12 — node-sets are duplicate-free sets in one consistent document order
 
@@ -452,6 +453,107 @@ theorem step_reverseAxis (d : Nat) (l : List NodeRef) (_hl : DocOrderedSet d l) 
 
 example : stepMerge indexedEnv [[⟨0, 4⟩, ⟨0, 7⟩], [], [⟨0, 2⟩, ⟨0, 7⟩, ⟨0, 9⟩]] =
     ⟨[⟨0, 2⟩, ⟨0, 4⟩, ⟨0, 7⟩, ⟨0, 9⟩], .document⟩ := by decide
+
+/-- what an axis function may leave in `subQueryResults`: a document-ordered set flagged document order, or its
+reversal flagged reverse order (an empty list with either flag included) -/
+def AxisResult (env : Env) (d : Nat) (r : NList) : Prop :=
+  (r.order = .document ∧ Operand env d r.nodes) ∨ (r.order = .reverse ∧ Operand env d r.nodes.reverse)
+
+/-- **Every location path delivers a duplicate-free node-set in document order.**  If every axis function (with
+its predicates) leaves, for every context node of document `d`, a document-ordered set of `d` — in document order
+for the forward axes, reversed and flagged so for the reverse axes (`axes_sorted` discharges this for the axes
+modelled over `Tree`) — then for every non-empty sequence of steps and every context node the path delivers a list
+flagged document order that is a duplicate-free document-ordered set of `d`.  By induction over the steps; the
+contexts of an inner step are visited in the order found (reverse for reverse axes), which `step_merge_sortedSet`
+absorbs. -/
+theorem locationPath_sortedSet {σ : Type} (env : Env) (d : Nat) (ha : AfterIsIndex env d)
+    (axisRaw : σ → NodeRef → NList)
+    (hax : ∀ s ctx, ctx.doc = d → AxisResult env d (axisRaw s ctx)) :
+    ∀ (steps : List σ) (ctx : NodeRef), steps ≠ [] → ctx.doc = d →
+      (evalPath env axisRaw steps ctx).order = .document ∧ Operand env d (evalPath env axisRaw steps ctx).nodes
+  | [], _, h, _ => absurd rfl h
+  | [s], ctx, _, hc => by
+    simp only [evalPath]
+    rcases hax s ctx hc with ⟨ho, hop⟩ | ⟨ho, hop⟩
+    · unfold stepFinish
+      split
+      · rename_i he
+        exact ⟨rfl, ⟨⟨by simp, List.Pairwise.nil⟩, hop.2.elim Or.inl (fun _ => Or.inr (by simp))⟩⟩
+      · simp only [ho]
+        exact ⟨by simp [ho], by simpa using hop⟩
+    · unfold stepFinish
+      split
+      · exact ⟨rfl, ⟨⟨by simp, List.Pairwise.nil⟩, hop.2.elim Or.inl (fun _ => Or.inr (by simp))⟩⟩
+      · simp only [ho, NList.reverse]
+        exact ⟨trivial, hop⟩
+  | s :: s2 :: rest, ctx, _, hc => by
+    simp only [evalPath]
+    have hctxs : ∀ c ∈ (axisRaw s ctx).nodes, c.doc = d := by
+      intro c hcm
+      rcases hax s ctx hc with ⟨_, hop⟩ | ⟨_, hop⟩
+      · exact hop.1.1 c hcm
+      · exact hop.1.1 c (by simpa using hcm)
+    have hres : ∀ o ∈ (axisRaw s ctx).nodes.map (fun c => (evalPath env axisRaw (s2 :: rest) c).nodes), Operand env d o := by
+      intro o ho
+      rw [List.mem_map] at ho
+      obtain ⟨c, hcm, rfl⟩ := ho
+      exact (locationPath_sortedSet env d ha axisRaw hax (s2 :: rest) c (by simp) (hctxs c hcm)).2
+    have h := step_merge_sortedSet env d ha _ hres
+    refine ⟨h.1, h.2.1, ?_⟩
+    -- no document node unless the repair makes it harmless
+    by_cases hdn : env.docNodeFirst = true
+    · exact Or.inl hdn
+    · refine Or.inr (fun m hm => ?_)
+      obtain ⟨o, ho, hmo⟩ := (h.2.2.1 m).1 hm
+      rcases (hres o ho).2 with h1 | h1
+      · exact absurd h1 hdn
+      · exact h1 m hmo
+
+/-- the axis functions modelled over `Tree` (`findAxis`: child, attribute, parent, ancestor, following-sibling,
+preceding-sibling — pointer walks as in XPath.cpp) as the list code sees them: nodes as `(d, index)`, flagged
+reverse for the reverse axes; a `NodeRef` that is no position of the walk denotes no node and has an empty axis -/
+def treeAxis (t : Tree) (d : Nat) (a : Axis) (ctx : NodeRef) : NList :=
+  if h : ctx.idx < t.paths.length then
+    ⟨toRefs t d (findAxis t a t.paths[ctx.idx]).1, if (findAxis t a t.paths[ctx.idx]).2 then .reverse else .document⟩
+  else ⟨[], .document⟩
+
+/-- **The modelled axis functions deliver what `locationPath_sortedSet` assumes**: valid nodes, strictly
+increasing in document order for child / attribute / parent / following-sibling, and strictly decreasing,
+flagged reverse, for ancestor / preceding-sibling — for every tree and every context node.  (The document node
+can be among the ancestors, hence `docNodeFirst`, true of /repo since 4c14898.)  Not modelled: descendant,
+following, preceding, namespace and the predicate filter (a sub-list). -/
+theorem axes_sorted (env : Env) (hdn : env.docNodeFirst = true) (t : Tree) (d : Nat) (a : Axis) (ctx : NodeRef) :
+    AxisResult env d (treeAxis t d a ctx) := by
+  unfold treeAxis
+  split
+  · rename_i h
+    have hs := findAxis_sorted t a t.paths[ctx.idx] (List.getElem_mem h)
+    unfold axisSorted at hs
+    by_cases hr : (findAxis t a t.paths[ctx.idx]).2 = true
+    · right
+      simp only [hr, if_true] at hs ⊢
+      refine ⟨trivial, ⟨?_, Or.inl hdn⟩⟩
+      have : (toRefs t d (findAxis t a t.paths[ctx.idx]).1).reverse = toRefs t d (findAxis t a t.paths[ctx.idx]).1.reverse := by
+        simp [toRefs]
+      rw [this]
+      exact toRefs_sorted t d _ (fun p hp => hs.1 p (by simpa using hp)) hs.2
+    · left
+      simp only [hr, Bool.false_eq_true, if_false] at hs ⊢
+      exact ⟨trivial, ⟨toRefs_sorted t d _ hs.1 hs.2, Or.inl hdn⟩⟩
+  · left
+    exact ⟨rfl, ⟨⟨by simp, List.Pairwise.nil⟩, Or.inl hdn⟩⟩
+
+/-- … so every location path over the modelled axes, on every tree, from every context node, delivers a
+duplicate-free node-set in document order, flagged document order. -/
+theorem treeLocationPath_sortedSet (env : Env) (hdn : env.docNodeFirst = true) (t : Tree) (d : Nat)
+    (ha : AfterIsIndex env d) (steps : List Axis) (ctx : NodeRef) (hs : steps ≠ []) (hc : ctx.doc = d) :
+    (evalPath env (treeAxis t d) steps ctx).order = .document ∧
+      DocOrderedSet d (evalPath env (treeAxis t d) steps ctx).nodes := by
+  have := locationPath_sortedSet env d ha (treeAxis t d) (fun s c _ => axes_sorted env hdn t d s c) steps ctx hs hc
+  exact ⟨this.1, this.2.1⟩
+
+example : (evalPath { indexedEnv with docNodeFirst := true } (treeAxis sampleTree 0)
+    [Axis.child, Axis.child, Axis.ancestor] ⟨0, 0⟩).nodes = [⟨0, 0⟩, ⟨0, 2⟩] := by decide
 
 /-- with `proposed/C12-docnode-first.diff` the document node takes its place at the front (and
 `addNodeInDocOrder_sortedSet` covers it: `Insertable` then holds for the document node too) -/
